@@ -160,11 +160,6 @@ class PybindWrapper:
         Returns:
             str: The wrapped print method.
         """
-        # Redirect stdout - see pybind docs for why this is a good idea:
-        # https://pybind11.readthedocs.io/en/stable/advanced/pycpp/utilities.html#capturing-standard-output-from-ostream
-        ret = ret.replace('self->print',
-                          'py::scoped_ostream_redirect output; self->print')
-
         # Make __repr__() call .print() internally
         ret += '''{prefix}.def("__repr__",
                     [](const {cpp_class}& self{opt_comma}{args_signature_with_names}){{
@@ -282,6 +277,13 @@ class PybindWrapper:
                              method_name=cpp_method,
                              args_names=', '.join(args_names),
                          ))
+        if method.name == 'print':
+            # Redirect stdout - see pybind docs for why this is a good idea:
+            # https://pybind11.readthedocs.io/en/stable/advanced/pycpp/utilities.html#capturing-standard-output-from-ostream
+            # (done on the call itself, so that a docstring mentioning the call stays as written)
+            function_call = function_call.replace(
+                'self->print',
+                'py::scoped_ostream_redirect output; self->print')
 
         ret = ('{prefix}.{cdef}("{py_method}",'
                '[]({opt_self}{opt_comma}{args_signature_with_names}){{'
